@@ -1,6 +1,6 @@
 (* MV.C05.Properties — property C05 ("termination is hierarchical and complete; shutdown waits for everyone")
    on the kernel model. The full statements are FALSE of the faithful model (and of the code) for two standing
-   findings, proved here as _refuted with concrete witnesses. What does hold universally is proved as _partial:
+   finding, proved here as _refuted with a concrete witness. What does hold universally is proved as _partial:
    the hierarchy invariant for every role table that does not spawn from inside an actor's own OnTerminated handler
    (exactly the behaviour of the second finding) and does not claim a system address. *)
 From MV Require Import Lib.ListX Kernel.Model Kernel.Run Kernel.Lifecycle Kernel.Hierarchy Kernel.Queue.
@@ -8,22 +8,18 @@ Open Scope Z_scope.
 
 Definition quiescent (s : kstate) : Prop := forall a, In a (actors s) -> a_inflight a = None.
 
-(* FULL: "Shutdown returns only after every actor has terminated" needs in particular that shutdown completes.
-   REFUTED: a handler that panics in OnTerminate while the actor is terminating is swallowed (ReportAbnormal ignores
-   actors that are not alive) after aborting the termination step half-way: the actor stays Terminating for ever,
-   its parent waits for it, the system never closes. (Open finding C05-lifecycle-handler-panic; also C04's clause
-   "a failure never blocks the system's ability to shut down".) *)
+(* "Shutdown completes". Until the repair of the lifecycle handlers (a panic inside OnTerminate / OnTerminated /
+   OnRestarting of an actor that is not alive used to be swallowed AFTER aborting the lifecycle step half-way: the actor
+   stayed terminating for ever, its parent waited for it, the system never closed — former theorem
+   C05_shutdown_completes_refuted, former open findings C05/C03/C06-lifecycle-handler-panic) this was refuted by a
+   three-line script. The handlers of a non-alive actor no longer abort the step (handle_q); the former witness now
+   closes: *)
 Definition c05_roles_panic : list role :=
   [ {| victim := Some DStop; sup := []; rules := [ {| r_on := KT; r_n := -1; r_inst := -1; r_do := [APanic] |} ] |} ].
-Theorem C05_shutdown_completes_refuted :
-  exists roles ls s os, krun roles kinit ls = Some (s, os) /\ In (LShutdown false) ls /\
-    quiescent s /\ closed s = false.
-Proof.
-  exists c05_roles_panic, [LSpawn 0 0; LRun 2; LShutdown false; LRun 0; LRun 2; LRun 1; LRun 0].
-  eexists. eexists. split; [vm_compute; reflexivity|]. split; [cbn; tauto|]. split; [|vm_compute; reflexivity].
-  intros a H. cbn in H. repeat (destruct H as [H|H]; [subst; reflexivity|]). contradiction.
-Qed.
-Print Assumptions C05_shutdown_completes_refuted.
+Example C05_panic_in_onterminate_no_longer_blocks_shutdown :
+  let '(s, os) := play c05_roles_panic kinit [LSpawn 0 0; LShutdown false; LEnd] in
+  quiet s = true /\ closed s = true /\ last os [] = [OEnd true []].
+Proof. vm_compute. repeat split; reflexivity. Qed.
 
 (* FULL: "Shutdown returns only after every actor has terminated, and afterwards no actor remains registered".
    REFUTED: an actor that spawns a child while handling its own OnTerminated (the last handler of its life: it is
@@ -114,3 +110,189 @@ Example C05_example :
     [OH 0 0 TL 0 rNone; OH 1 0 TL 0 rNone; OH 1 0 (TP 5) 1 rNone;
      OH 0 0 TT 0 rNone; OH 1 0 TT 0 rNone; OH 1 0 TTS 0 rNone; OH 0 0 (TTO 1) 0 rNone; OH 0 0 TTS 0 rNone].
 Proof. vm_compute. repeat split; reflexivity. Qed.
+
+(* ====================================================================================================================
+   TEMPORARY REPLY ADDRESSES ("... and afterwards no actor or temporary reply address remains registered").
+   Model MV.C05.AddrModel: the set of registered temporary addresses (the futures that FutureAsk / the typed ask /
+   AwaitForward register under <actor>/<n>) of a whole system in virtual time, tied to the real ActorSystem on every
+   run by harness/cmd/c05addr (registry enumerated after every operation). `rel = true` is the code with
+   fixes/C05-awaitforward-release.patch, `rel = false` the code as shipped; every theorem that does not say otherwise
+   holds for both. `reach rel s` = s is the state after some sequence of operations (asks to targets that answer after a
+   delay / never / when told to, with or without a timeout; AwaitForward; time passing; askers terminated or restarted
+   while their asks are pending; Shutdown anywhere). docs/C05-ADDR-NOTES.md has the reading of the code behind it.
+   ==================================================================================================================== *)
+From MV Require Import C05.AddrModel C05.AddrRun C05.AddrProofs.
+
+(* (a) An address is registered exactly from its creation to its one completion.
+   Every address ever created (made) is registered iff it has not been completed (answered, timed out, forwarded) ... *)
+Theorem C05_addr_registered_iff_not_completed : forall rel s e,
+  reach rel s -> In e (made s) -> (In e (reg s) <-> ~ completed s e).
+Proof. exact registered_iff_not_completed. Qed.
+Print Assumptions C05_addr_registered_iff_not_completed.
+
+(* ... what is registered was created by an operation of the run, and neither its timeout instant nor the instant of its
+   answer has been reached: the address is released in the very instant in which the first of the two comes ... *)
+Theorem C05_addr_registered_is_pending : forall rel s e,
+  reach rel s -> In e (reg s) ->
+  In e (made s) /\ (forall x, e_tmo e = Some x -> now s < x) /\ (forall y, e_ans e = Some y -> now s < y).
+Proof.
+  intros rel s e R H. split; [exact (registered_was_made rel s e R H)|exact (registered_not_overdue rel s e R H)].
+Qed.
+Print Assumptions C05_addr_registered_is_pending.
+
+(* ... a completion happened at an instant t between the creation and now, and is the FIRST of answer and timeout:
+   by timeout only at the timer's instant with no answer due before, by an answer never after the timer's instant,
+   an AwaitForward at the instant its function returned (see `good`) ... *)
+Theorem C05_addr_completion_is_first_of_answer_and_timeout : forall rel s e o t,
+  reach rel s -> In (e, o, t) (fin s) -> In e (made s) /\ t <= now s /\ good e o t.
+Proof. exact completion_is_first. Qed.
+Print Assumptions C05_addr_completion_is_first_of_answer_and_timeout.
+
+(* ... and a completed address is never registered again, whatever follows. *)
+Theorem C05_addr_never_registered_again : forall rel s ops e,
+  reach rel s -> completed s e -> ~ In e (reg (run rel s ops)) /\ completed (run rel s ops) e.
+Proof.
+  intros rel s ops e R C. split; [exact (never_registered_again rel s ops e R C)|exact (completed_for_ever rel s ops e C)].
+Qed.
+Print Assumptions C05_addr_never_registered_again.
+
+(* creation: an ask by somebody who can still act is accounted for under the index of the operation and is registered
+   at once (unless its answer comes in the same instant); somebody terminated, or anybody after Shutdown, creates nothing *)
+Theorem C05_addr_ask_registered_from_creation : forall rel s a t T,
+  can_act s a = true ->
+  In (ask_entry s t T) (made (step rel s (OAsk a t T))) /\ e_id (ask_entry s t T) = nid s /\
+  e_at (ask_entry s t T) = now s /\
+  (is_due (now s) (ask_entry s t T) = false -> In (ask_entry s t T) (reg (step rel s (OAsk a t T)))).
+Proof. exact ask_created. Qed.
+Print Assumptions C05_addr_ask_registered_from_creation.
+
+Theorem C05_addr_ids_identify : forall rel s e e',
+  reach rel s -> In e (made s) -> In e' (made s) -> e_id e = e_id e' -> e = e'.
+Proof. exact ids_unique. Qed.
+Print Assumptions C05_addr_ids_identify.
+
+(* an address that has a timer is gone as soon as the clock reaches it — whether its asker has been terminated or
+   restarted meanwhile, whether the system has been shut down or not *)
+Theorem C05_addr_gone_at_timeout : forall rel s e x,
+  reach rel s -> In e (made s) -> e_tmo e = Some x -> x <= now s -> ~ In e (reg s).
+Proof. exact gone_at_timeout. Qed.
+Print Assumptions C05_addr_gone_at_timeout.
+
+(* (b) Once the clock has passed the timeout or the answer instant of every ask that is not completed otherwise, no ask
+   address is registered: whatever is registered is an AwaitForward (as shipped they stay, see below) ... *)
+Theorem C05_addr_no_ask_once_settled : forall rel s,
+  reach rel s ->
+  (forall e, In e (made s) -> e_kind e = KAsk -> completed s e \/ is_due (now s) e = true) ->
+  asks s = [] /\ forall e, In e (reg s) -> e_kind e = KFwd.
+Proof. exact no_ask_when_all_settled. Qed.
+Print Assumptions C05_addr_no_ask_once_settled.
+
+(* ... with the AwaitForward functions returned too, nothing at all is registered ... *)
+Theorem C05_addr_empty_once_settled : forall rel s,
+  reach rel s -> (forall e, In e (made s) -> completed s e \/ is_due (now s) e = true) -> reg s = [].
+Proof. exact empty_when_all_settled. Qed.
+Print Assumptions C05_addr_empty_once_settled.
+
+(* ... in particular when Shutdown returns after that point, and then for ever (nothing is created after Shutdown). *)
+Theorem C05_addr_empty_after_settled_shutdown : forall rel s ops,
+  reach rel s ->
+  (forall e, In e (made (step rel s OShutdown)) ->
+             completed (step rel s OShutdown) e \/ is_due (now (step rel s OShutdown)) e = true) ->
+  reg (run rel (step rel s OShutdown) ops) = [].
+Proof. exact settled_shutdown_empty. Qed.
+Print Assumptions C05_addr_empty_after_settled_shutdown.
+
+(* every ask that has a timer is released by the passage of time alone *)
+Theorem C05_addr_asks_released_by_time : forall rel s dt,
+  0 <= dt ->
+  (forall e, In e (reg s) -> e_kind e = KAsk -> exists x, e_tmo e = Some x /\ x <= now s + dt) ->
+  asks (step rel s (OAdv dt)) = [].
+Proof. exact asks_released_by_time. Qed.
+Print Assumptions C05_addr_asks_released_by_time.
+
+(* What the termination of the asker, its restart and Shutdown do to pending asks: NOTHING. The code closes no future
+   on any of these paths (actor_context.go onTerminate / tryTerminated / onRestart, actor_system.go Shutdown); Shutdown
+   only lets time pass while it waits for handlers that are still running. *)
+Theorem C05_addr_stop_and_restart_touch_nothing : forall rel s a,
+  reg (step rel s (OStop a)) = reg s /\ reg (step rel s (ORestart a)) = reg s /\
+  fin (step rel s (OStop a)) = fin s /\ fin (step rel s (ORestart a)) = fin s.
+Proof. exact stop_restart_touch_nothing. Qed.
+Print Assumptions C05_addr_stop_and_restart_touch_nothing.
+
+Theorem C05_addr_shutdown_is_only_time : forall rel s,
+  down s = false ->
+  reg (step rel s OShutdown) = filter (fun e => negb (is_due (Z.max (now s) (busy s)) e)) (reg s) /\
+  now (step rel s OShutdown) = Z.max (now s) (busy s).
+Proof. exact shutdown_is_only_time. Qed.
+Print Assumptions C05_addr_shutdown_is_only_time.
+
+(* (c) FULL clause: "after Shutdown no temporary reply address remains registered".
+   REFUTED for the code as shipped by AwaitForward: its goroutine hands the result straight to the target and never
+   completes the future, which has no timeout: the address stays registered for ever — here still one hour after
+   Shutdown. Genuine defect, repaired by fixes/C05-awaitforward-release.patch (rel = true above). *)
+Theorem C05_addr_awaitforward_released_as_shipped_refuted :
+  exists ops s, s = run false init ops /\ In OShutdown ops /\ down s = true /\ now s = 3600100 /\
+    map e_kind (reg s) = [KFwd] /\ (forall e, In e (made s) -> e_kind e = KFwd /\ e_at e + 40 <= now s).
+Proof.
+  exists [OFwd 1 40; OAdv 100; OShutdown; OAdv 3600000]. eexists. split; [reflexivity|].
+  split; [cbn; tauto|]. split; [reflexivity|]. split; [reflexivity|]. split; [reflexivity|].
+  intros e [<-|[]]. vm_compute. split; [reflexivity|discriminate].
+Qed.
+Print Assumptions C05_addr_awaitforward_released_as_shipped_refuted.
+
+(* the same for EVERY continuation: as shipped, the address of an AwaitForward is never released *)
+Theorem C05_addr_awaitforward_as_shipped_refuted_for_ever : forall s a d ops,
+  can_act s a = true -> In (fwd_entry false s d) (reg (run false (step false s (OFwd a d)) ops)).
+Proof. exact fwd_as_shipped_for_ever. Qed.
+Print Assumptions C05_addr_awaitforward_as_shipped_refuted_for_ever.
+
+(* REFUTED also for the repaired code, in the literal reading: an ask that is pending when Shutdown is called — the
+   asker is terminated by it — stays registered after Shutdown has returned, until its timeout (theorem
+   C05_addr_gone_at_timeout) or its answer. Proposed open finding C05-pending-ask-outlives-shutdown. *)
+Theorem C05_addr_no_address_after_shutdown_refuted :
+  exists ops s, s = run true init ops /\ down s = true /\ map e_id (reg s) = [0] /\ map e_kind (reg s) = [KAsk].
+Proof. exists [OAsk 1 TNever 1000; OShutdown]. eexists. repeat split. Qed.
+Print Assumptions C05_addr_no_address_after_shutdown_refuted.
+
+(* nor does terminating the asker release its pending asks *)
+Theorem C05_addr_stop_releases_pending_asks_refuted :
+  exists ops s, s = run true init ops /\ dead s = [1] /\ map e_id (reg s) = [0; 1].
+Proof. exists [OAsk 1 TNever 1000; OAsk 1 TManual 500; OStop 1; OAdv 499]. eexists. repeat split. Qed.
+Print Assumptions C05_addr_stop_releases_pending_asks_refuted.
+
+(* an ask WITHOUT a timer (timeout <= 0) that nobody answers stays registered for ever, Shutdown or not, repaired or not *)
+Theorem C05_addr_untimed_ask_refuted_for_ever : forall rel s a T ops,
+  can_act s a = true -> T <= 0 -> In (ask_entry s TNever T) (reg (run rel (step rel s (OAsk a TNever T)) ops)).
+Proof. exact untimed_unanswered_ask_for_ever. Qed.
+Print Assumptions C05_addr_untimed_ask_refuted_for_ever.
+
+(* non-vacuity: a run with everything in it (this is case 7 of the harness corpus plus an AwaitForward, as observed on
+   the real system): an ask answered from a goroutine after 500 ms, one held by the manual target and answered at 600 ms,
+   the asker restarted meanwhile, an ask answered at once, an AwaitForward whose function runs 700 ms and is still
+   running when Shutdown returns; (clock, registered ids) after every operation and the completions *)
+Definition c05_addr_example_ops : list op :=
+  [OAsk 1 (TAfter 500 false) 3000; OAsk 1 TManual 3000; ORestart 1; OAsk 1 (TAfter 0 false) 1000; OFwd 1 700;
+   OAdv 600; OReply 1; OShutdown; OAdv 3000].
+Example C05_addr_example :
+  model_obs c05_addr_example_ops =
+    [(0, [0]); (0, [0; 1]); (0, [0; 1]); (0, [0; 1]); (0, [0; 1; 4]); (600, [1; 4]); (600, [4]); (600, [4]); (3600, [])] /\
+  model_fin c05_addr_example_ops = [(3, ByReply, 0); (0, ByReply, 500); (1, ByReply, 600); (4, ByForward, 700)] /\
+  (* the hypothesis of the "settled" theorems holds at the end, on a state that created four addresses *)
+  length (made (run true init c05_addr_example_ops)) = 4%nat /\
+  forall e, In e (made (run true init c05_addr_example_ops)) ->
+    completed (run true init c05_addr_example_ops) e \/ is_due (now (run true init c05_addr_example_ops)) e = true.
+Proof.
+  split; [vm_compute; reflexivity|]. split; [vm_compute; reflexivity|]. split; [vm_compute; reflexivity|].
+  intros e H. right. revert e H.
+  apply (proj1 (forallb_forall (is_due (now (run true init c05_addr_example_ops))) (made (run true init c05_addr_example_ops)))).
+  vm_compute. reflexivity.
+Qed.
+
+(* non-vacuity of (a)/(b): timeouts that fire while the asker is dead and after Shutdown; a blocking target makes
+   Shutdown return at 800 ms *)
+Example C05_addr_example_timeouts :
+  model_obs [OAsk 1 TNever 1000; OAsk 1 (TAfter 700 false) 2000; OStop 1; OAsk 1 TNever 50; OAdv 500; OAdv 300; OAdv 300]
+    = [(0, [0]); (0, [0; 1]); (0, [0; 1]); (0, [0; 1]); (500, [0; 1]); (800, [0]); (1100, [])] /\
+  model_obs [OAsk 1 (TAfter 800 true) 300; OAdv 100; OShutdown; OAdv 1000] = [(0, [0]); (100, [0]); (800, []); (1800, [])] /\
+  model_fin [OAsk 1 (TAfter 800 true) 300; OAdv 100; OShutdown; OAdv 1000] = [(0, ByTimeout, 300)].
+Proof. vm_compute. repeat split. Qed.
